@@ -8,7 +8,7 @@ memoisation of the driver."""
 # decimal kernels: coefficients up to `digits` digits, exponents exp_lo..exp_hi; products and
 # quotients of two symbolic decimals are uninterpreted (mul_abstract: the obligations hold for
 # every value they may take) with x/y exponents split into one path each
-DEC_BOUNDS = {"all": {"mul_abstract": 1, "dec_coeff_form": 1},
+DEC_BOUNDS = {"all": {"mul_abstract": 1, "dec_coeff_form": 1, "reduce_exact": 1},
               "quick": {"digits": 45, "exp_lo": -12, "exp_hi": 12, "xexp_lo": -6, "xexp_hi": 2, "yexp_lo": -2, "yexp_hi": 1},
               "thorough": {"digits": 50, "exp_lo": -24, "exp_hi": 30, "xexp_lo": -12, "xexp_hi": 12, "yexp_lo": -6, "yexp_hi": 6}}
 
